@@ -74,10 +74,123 @@ def rinfo(ssrc: int) -> R.RtcpReceiverInfo:
     return R.RtcpReceiverInfo(ssrc=ssrc, fraction_lost=0, packets_lost=0, highest_sequence=0, jitter=0, lsr=0, dlsr=0)
 
 
+class RouterBackend:
+    """The routing table itself."""
+
+    def __init__(self) -> None:
+        self.router = RtpRouter()
+        self.recv = [Obj(f"R{i}") for i in range(N_RECV)]
+        self.send = [Obj(f"S{i}") for i in range(N_SEND)]
+
+    async def register_receiver(self, i, ssrcs, pts, mid):
+        self.router.register_receiver(self.recv[i], ssrcs=list(ssrcs), payload_types=list(pts), mid=mid)
+
+    async def unregister_receiver(self, i):
+        self.router.unregister_receiver(self.recv[i])
+
+    async def register_sender(self, i):
+        self.router.register_sender(self.send[i], ssrc=SENDER_SSRC[i])
+
+    async def unregister_sender(self, i):
+        self.router.unregister_sender(self.send[i])
+
+    async def route_rtp(self, pkt):
+        return self.router.route_rtp(pkt)
+
+    async def route_rtcp(self, pkt):
+        return self.router.route_rtcp(pkt)
+
+
+class Recorder(Obj):
+    """A receiver / sender as the DTLS transport sees it: records what it is handed."""
+
+    def __init__(self, name: str, ssrc: int = 0) -> None:
+        super().__init__(name)
+        self._ssrc = ssrc
+        self.got: list = []
+
+    async def _handle_rtp_packet(self, packet, arrival_time_ms):
+        self.got.append(("rtp", packet))
+
+    async def _handle_rtcp_packet(self, packet):
+        self.got.append(("rtcp", packet))
+
+    def _handle_disconnect(self) -> None:
+        pass
+
+
+class TransportBackend:
+    """The same operations through a real RTCDtlsTransport: registration via _register_rtp_receiver/_sender with real
+    parameter objects, routing via _handle_rtp_data/_handle_rtcp_data on serialised packets."""
+
+    def __init__(self) -> None:
+        from aiortc.rtcdtlstransport import RTCDtlsTransport
+        from checks.c04_dtls import certs
+
+        class Ice:
+            role = "controlling"
+
+        self.t = RTCDtlsTransport(Ice(), [certs()[0]])
+        self.recv = [Recorder(f"R{i}") for i in range(N_RECV)]
+        self.send = [Recorder(f"S{i}", SENDER_SSRC[i]) for i in range(N_SEND)]
+
+    async def register_receiver(self, i, ssrcs, pts, mid):
+        from aiortc.rtcrtpparameters import RTCRtpCodecParameters, RTCRtpDecodingParameters, RTCRtpReceiveParameters
+
+        params = RTCRtpReceiveParameters(
+            codecs=[RTCRtpCodecParameters(mimeType="video/x", clockRate=90000, payloadType=pt) for pt in pts],
+            encodings=[RTCRtpDecodingParameters(ssrc=s, payloadType=(list(pts) or [0])[0]) for s in ssrcs], muxId=mid or "")
+        self.t._register_rtp_receiver(self.recv[i], params)
+
+    async def unregister_receiver(self, i):
+        self.t._unregister_rtp_receiver(self.recv[i])
+
+    async def register_sender(self, i):
+        from aiortc.rtcrtpparameters import RTCRtpSendParameters
+
+        self.t._register_rtp_sender(self.send[i], RTCRtpSendParameters())
+
+    async def unregister_sender(self, i):
+        self.t._unregister_rtp_sender(self.send[i])
+
+    def _collect(self, kind: str):
+        out = []
+        for o in self.recv + self.send:
+            n = sum(1 for k, _ in o.got if k == kind)
+            if n:
+                out.append((o, n))
+            o.got.clear()
+        return out
+
+    async def route_rtp(self, pkt):
+        await self.t._handle_rtp_data(pkt.serialize(), arrival_time_ms=0)
+        hit = self._collect("rtp")
+        if len(hit) > 1 or any(n > 1 for _, n in hit):
+            raise AssertionError(f"one RTP packet was handed to {hit}")
+        return hit[0][0] if hit else None
+
+    async def route_rtcp(self, pkt):
+        await self.t._handle_rtcp_data(bytes(pkt))
+        hit = self._collect("rtcp")
+        if any(n > 1 for _, n in hit):
+            raise AssertionError(f"one RTCP packet was handed over more than once: {hit}")
+        return {o for o, _ in hit}
+
+
 def run_history(case: dict) -> Outcome:
-    router = RtpRouter()
-    recv = [Obj(f"R{i}") for i in range(N_RECV)]
-    send = [Obj(f"S{i}") for i in range(N_SEND)]
+    import asyncio
+
+    return asyncio.run(_history(case, RouterBackend()))
+
+
+def run_history_transport(case: dict) -> Outcome:
+    import asyncio
+
+    return asyncio.run(_history(case, TransportBackend()))
+
+
+async def _history(case: dict, router) -> Outcome:
+    recv, send = router.recv, router.send
     # model
     registered: set = set()
     accept = {i: set() for i in range(N_RECV)}
@@ -95,7 +208,7 @@ def run_history(case: dict) -> Outcome:
             if k == "reg_r":
                 _, i, ssrcs, pts, mid = o
                 i %= N_RECV
-                router.register_receiver(recv[i], ssrcs=list(ssrcs), payload_types=list(pts), mid=mid)
+                await router.register_receiver(i, ssrcs, pts, mid)
                 registered.add(i)
                 accept[i] |= set(pts)
                 for s in ssrcs:
@@ -109,7 +222,7 @@ def run_history(case: dict) -> Outcome:
                     classes.add("overlapping-pt")
             elif k == "unreg_r":
                 i = o[1] % N_RECV
-                router.unregister_receiver(recv[i])
+                await router.unregister_receiver(i)
                 if i in registered and any(i in claims.get(s, []) for s in latched):
                     classes.add("latch-then-unregister")
                 registered.discard(i)
@@ -121,15 +234,15 @@ def run_history(case: dict) -> Outcome:
                         latched.discard(s)
             elif k == "reg_s":
                 i = o[1] % N_SEND
-                router.register_sender(send[i], ssrc=SENDER_SSRC[i])
+                await router.register_sender(i)
                 senders[SENDER_SSRC[i]] = i
             elif k == "unreg_s":
                 i = o[1] % N_SEND
-                router.unregister_sender(send[i])
+                await router.unregister_sender(i)
                 senders.pop(SENDER_SSRC[i], None)
             elif k == "rtp":
                 _, ssrc, pt = o
-                got = router.route_rtp(R.RtpPacket(payload_type=pt & 0x7F, ssrc=ssrc))
+                got = await router.route_rtp(R.RtpPacket(payload_type=pt & 0x7F, ssrc=ssrc))
                 cl = claims.get(ssrc, [])
                 if ssrc in tainted:
                     allowed = [None] + [recv[j] for j in sorted(registered) if pt in accept[j]]
@@ -197,7 +310,7 @@ def run_history(case: dict) -> Outcome:
                 else:  # malformed REMB prefix
                     pkt = R.RtcpPsfbPacket(fmt=15, ssrc=1, media_ssrc=o[2], fci=b"XEMB" + R.pack_remb_fci(1, list(o[3]))[4:])
                     snd(o[2])
-                got = router.route_rtcp(pkt)
+                got = await router.route_rtcp(pkt)
                 extra = {g for g in got if not any(g is w for w in want)} - lenient
                 missing = {w for w in want if not any(w is g for g in got)}
                 if extra or missing:
@@ -220,13 +333,18 @@ CHECK = Check(
         "payload-type pools: register/unregister receiver (SSRC list, payload types, mid), register/unregister sender, "
         "route an RTP packet, route each RTCP packet type incl. REMB with SSRC list and malformed REMB prefix. After every "
         "routing step the result is compared with an independent table model (claimants per SSRC incl. latching, accepted "
-        "payload types, sender table). Non-trivial = history contains a latch followed by an unregistration of the latched "
+        "payload types, sender table). Family `transport` drives the same histories through a real RTCDtlsTransport: registration "
+        "with real parameter objects, routing through _handle_rtp_data / _handle_rtcp_data on serialised packets, recording "
+        "receivers and senders (one packet must reach at most one receiver, and no recipient twice). Non-trivial = history contains a latch followed by an unregistration of the latched "
         "receiver, overlapping payload types, or a REMB fan-out to more than one sender."
     ),
     families=[
         Family("history", run_history,
                lambda tier: history(tier),
                quick=6000, thorough=300000),
+        Family("transport", run_history_transport,
+               lambda tier: history(tier),
+               quick=3000, thorough=100000),
     ],
     floor=500,
     assumptions=["with overlapping explicit registrations of one SSRC the model accepts any claimant that takes the payload type, or a drop"],
